@@ -8,8 +8,18 @@
   What a datagram goroutine captured when it was spawned (receiving Serve call — hence conn —,
   source address, datagram) is recorded per task in `St.origin`; the log records the read (`recv`),
   the `Request` handed to the handler (`request`: packet, RemoteAddr, the conn whose LocalAddr it
-  carries, context) and every `ResponseWriter.Write` of a running handler (`reply`: conn, addr; label
-  `taskReply`).  Replies written after the handler has returned are outside the model.
+  carries, context) and every `ResponseWriter.Write` of a running handler that reached the conn
+  (`reply`: conn, addr and the octets written; label `taskReply t code attrs`: the handler writes
+  `request.Response(code)` with attributes of its choice — handlers that hand `Write` a packet that is
+  not a Response of their request are outside the model).  Replies written after the handler has
+  returned are outside the model.
+
+  Granularity of the read loop.  The label `serveRecv` is THREE code steps taken together: `ReadFrom`
+  returns a datagram (server-packet.go:133), `s.activeAdd()` (:146) and the `go` statement (:147).
+  The machine in which they are separate steps (`serveRead` / `serveSpawn`, so that a Shutdown can
+  fall between them) is `RV.Model.Server2`; it shares every other step and the function `spawn` with
+  this one, and this machine is exactly its restriction to the schedules in which the pair is adjacent
+  (`RV.C07.coarse_is_fine_with_adjacent_pairs`, from `RV.Server.refine_run`).
 
   Two variants of `Serve`'s registration:
     `.fixed`   — `activeAdd` happens before `mu.Unlock()` (the code after the C07 repair);
@@ -23,12 +33,23 @@ inductive Variant where
   | fixed | current
 deriving DecidableEq, Repr
 
-/-- what the secret source answers for a peer -/
+/-- what the secret source answers for a peer.
+
+    `RADIUSSecret` returns a PAIR `([]byte, error)`, and a source may return a secret together with
+    a non-nil error.  server-packet.go:151-158 tests `err != nil` FIRST (log, return) and looks at
+    `len(secret)` only when `err == nil`; the secret that came with an error is never used.  So the
+    three answers below are the three things the code distinguishes, and a product answer adds
+    nothing: `SecretAns.ofPair` is the code's reading of a pair (error wins). -/
 inductive SecretAns where
   | secret (s : Bytes)
   | empty
   | error
 deriving DecidableEq, Repr
+
+/-- how server-packet.go:151-158 reads the pair `(secret, err)` a secret source returned: a non-nil
+    error wins whatever the secret is; without an error an empty secret is refused -/
+def SecretAns.ofPair (secret : Bytes) (errNonNil : Bool) : SecretAns :=
+  if errNonNil then .error else if secret.length = 0 then .empty else .secret secret
 
 /-- static configuration of a scenario -/
 structure Cfg where
@@ -132,8 +153,9 @@ inductive Event where
   /-- the `Request` built for the handler of `task`: `Packet`, `RemoteAddr`, `LocalAddr` (the local
       address of conn `localConn`) and `ctx` -/
   | request (task : Nat) (p : Packet) (remote localConn : Nat) (ctx : Ctx)
-  /-- `packetResponseWriter.Write` of `task`'s handler: `conn.WriteTo(_, addr)` -/
-  | reply (task conn addr : Nat)
+  /-- `packetResponseWriter.Write` of `task`'s handler: `conn.WriteTo(w, addr)` — socket, destination
+      and the octets written -/
+  | reply (task conn addr : Nat) (w : Bytes)
 deriving DecidableEq, Repr
 
 structure St where
@@ -157,6 +179,16 @@ def St.peerOf (s : St) (t : Nat) : Nat :=
   match s.origin[t]? with
   | some o => o.peer
   | none => 0
+
+/-- the `Packet` of the `Request` handed to the handler of goroutine `t`: what the pipeline made of the
+    datagram the goroutine captured (`none` when that datagram is not handed to a handler) -/
+def St.packetOf (H : Hash) (cfg : Cfg) (s : St) (t : Nat) : Option Packet :=
+  match s.origin[t]? with
+  | some o =>
+    match classify H cfg o.peer o.dgram with
+    | .handle _ p => some p
+    | _ => none
+  | none => none
 
 /-- whether a context has ended -/
 def St.ctxEnded (s : St) : Ctx → Bool
@@ -188,6 +220,14 @@ def activeDone (s : St) : St :=
 
 def activeAdd (s : St) : St := { s with active := s.active + 1 }
 
+/-- server-packet.go:146-147, `s.activeAdd(); go func(buff, remoteAddr){…}(copy of buff[:n], remoteAddr)`
+    by Serve call `i` for the datagram `d` that `ReadFrom` returned from `peer`: one more goroutine,
+    counted BEFORE it exists.  Shared by `serveRecv` here and `serveSpawn` of `RV.Model.Server2`. -/
+def spawn (H : Hash) (cfg : Cfg) (s : St) (i peer : Nat) (d : Bytes) : St :=
+  activeAdd { s with tasks := s.tasks ++ [⟨i, .spawned (classify H cfg peer d)⟩],
+                     origin := s.origin ++ [⟨i, peer, d⟩],
+                     log := s.log ++ [.recv s.tasks.length i peer d] }
+
 inductive Label where
   | serveEnter (i : Nat)                     -- Serve: mutex region (init, shutdown test, register [, count])
   | serveCount (i : Nat)                     -- `.current`: the later `activeAdd`
@@ -196,7 +236,7 @@ inductive Label where
   | serveReadFail (i : Nat) (k : ReadErrKind) -- ReadFrom failed for another reason (environment)
   | taskRun (t : Nat)                        -- the goroutine runs its pipeline up to the handler call
   | taskFinish (t : Nat)                     -- the handler returns
-  | taskReply (t : Nat)                      -- the running handler calls `ResponseWriter.Write` (any number of times)
+  | taskReply (t : Nat) (code : Int) (attrs : Attrs)  -- the running handler calls `ResponseWriter.Write` (any number of times) with `request.Response(code)` + `attrs`
   | downEnter (j : Nat)                      -- Shutdown: mutex region
   | downReturnNil (j : Nat)                  -- select: lastActive closed
   | downReturnCtx (j : Nat)                  -- select: ctx.Done()
@@ -227,9 +267,7 @@ def step (H : Hash) (cfg : Cfg) (s : St) : Label → Option St
     match s.serves[i]? with
     | some .running =>
       if s.connClosed.getD (s.connOf.getD i 0) 0 > 0 then none
-      else some (activeAdd { s with tasks := s.tasks ++ [⟨i, .spawned (classify H cfg peer d)⟩],
-                                    origin := s.origin ++ [⟨i, peer, d⟩],
-                                    log := s.log ++ [.recv s.tasks.length i peer d] })
+      else some (spawn H cfg s i peer d)
     | _ => none
   | .serveReadErr i =>
     match s.serves[i]? with
@@ -283,11 +321,18 @@ def step (H : Hash) (cfg : Cfg) (s : St) : Label → Option St
                                  inflight := s.inflight.set i ((s.inflight.getD i []).erase key),
                                  log := s.log ++ [.handlerEnd t] })
     | _ => none
-  | .taskReply t =>
+  | .taskReply t code attrs =>
     match s.tasks[t]? with
     | some ⟨i, .inHandler _⟩ =>
+      -- `Write(packet)`: `encoded, err := packet.Encode(); if err != nil { return err }` — nothing reaches
+      -- the conn when the encoder refuses (the step is then not enabled) — else
       -- `r.conn.WriteTo(encoded, r.addr)` with the writer built in `taskRun`
-      some { s with log := s.log ++ [.reply t (s.connOf.getD i 0) (s.peerOf t)] }
+      match s.packetOf H cfg t with
+      | some p =>
+        match encode H { response p code with attrs := attrs } with
+        | .ok w => some { s with log := s.log ++ [.reply t (s.connOf.getD i 0) (s.peerOf t) w] }
+        | _ => none
+      | none => none
     | _ => none
   | .downEnter j =>
     match s.downs[j]? with
